@@ -18,6 +18,7 @@ and a set of per-step oracles that the property modules select:
     balance    C07  precision-weighted mu change sums to zero (the single-call oracle applied to the observed step)
     direction  C05  first / last place, same direction, proportional to own variance (single-call oracle (a) applied to the step)
     total      C08  no exception, every number finite (rate and the three predictions)
+    sigma      C06  the single-call sigma bounds on the observed step + the quadrature bound sqrt(sigma0^2 + sum tau^2) per player object
 
 Players whose rating leaves the numeric domain the properties quantify over are retired (not fed back), as in C06's league.
 """
@@ -54,6 +55,7 @@ class OracleLeague:
         self.ids = [p.id for p in self.players]
         self.names = [p.name for p in self.players]
         self.games = [0] * len(self.players)
+        self.bound_sq = [p[1] * p[1] for p in first["players"]]
         self.n_games = 0
         self.n_replays = 0
         self.n_predicts = 0
@@ -195,6 +197,16 @@ class OracleLeague:
             from vf.props.c05 import check_a
             self._sub(check_a, case)
 
+        if "sigma" in orc:
+            from vf.props.c06 import check_single
+            self._sub(check_single, case)
+            for a, t in enumerate(teams_idx):
+                for b, i in enumerate(t):
+                    self.bound_sq[i] += tau * tau
+                    if got[a][b][1] > math.sqrt(self.bound_sq[i]) * (1 + 1e-12):
+                        raise Violation("history:sigma-above-quadrature-bound",
+                                        f"{where}: player {i} sigma={got[a][b][1]!r} > sqrt(sigma0^2 + sum tau^2) = {math.sqrt(self.bound_sq[i])!r}")
+
         # --- feed back ------------------------------------------------------------------------------
         for a, t in enumerate(teams_idx):
             for b, i in enumerate(t):
@@ -322,4 +334,133 @@ OracleLeague.RULES = {
 def league_class(name, oracles, pid):
     cls = type(name, (OracleLeague,), {"ORACLES": tuple(oracles), "PID": pid})
     cls.RULES = dict(OracleLeague.RULES)
+    return cls
+
+
+# ------------------------------------------------------------------------------------------------------
+# twin leagues: the same history presented in two ways that the property says are equivalent, bit for bit
+# ------------------------------------------------------------------------------------------------------
+class TwinLeague:
+    """Two leagues start from value-equal players and play the same games; side A gets every game in a canonical presentation, side B in
+    the presentation the property declares equivalent (another outcome encoding; the option given per call instead of at model level; the
+    other Bradley-Terry class).  After every game all (mu, sigma) of both sides must be IDENTICAL (exact comparison, so nothing accumulates
+    along the history).  The rating objects of both sides live on through the history (returned objects are fed back)."""
+    WHAT = "twin"
+    KINDS = None  # restrict model kinds
+    MAX_TEAMS = 5
+    MAX_SIZE = 3
+    ENC = OracleLeague.ENC
+
+    def __init__(self, first, ctx):
+        self.cfg = first["cfg"]
+        self.ctx = ctx
+        self.first = first
+        self.models = self.make_models(first)
+        self.players = [[m.rating(p[0], p[1], name=f"p{i}") for i, p in enumerate(first["players"])] for m in self.models]
+        self.games = [0] * len(first["players"])
+        self.n_games = 0
+        self.retired = set()
+        self.nontrivial = False
+        self.labels = ["kind:" + self.cfg["kind"]]
+        self.differing_presentations = 0
+
+    # -- to be specialised ---------------------------------------------------------------------------
+    def make_models(self, first):
+        return [mk_model(self.cfg), mk_model(self.cfg)]
+
+    def side_calls(self, step):
+        """-> [(model, call) for side A, (model, call) for side B]"""
+        raise NotImplementedError
+
+    @classmethod
+    def extra_step(cls, draw, h, n, classes):
+        return {}
+
+    @classmethod
+    def init_strategy(cls):
+        @st.composite
+        def init(draw):
+            cfg = draw(gen.configs(gammas=HIST_GAMMAS, **({"kinds": cls.KINDS} if cls.KINDS else {})))
+            beta = cfg["beta"]
+            n = draw(st.integers(4, 10))
+            style = draw(st.sampled_from(["spread", "new-players", "settled"]))
+            players = []
+            for _ in range(n):
+                if style == "new-players":
+                    players.append([cfg["mu"], cfg["sigma"]])
+                elif style == "settled":
+                    players.append([draw(st.floats(-3.0, 9.0)) * beta, draw(st.floats(0.02, 0.5)) * beta])
+                else:
+                    players.append([draw(st.floats(-3.0, 9.0)) * beta, draw(st.one_of(st.just(2.0), st.floats(0.05, 10.0))) * beta])
+            return {"op": "init", "cfg": cfg, "players": players, "style": style, **cls.extra_init(draw, cfg)}
+
+        return init()
+
+    @classmethod
+    def extra_init(cls, draw, cfg):
+        return {}
+
+    def active(self):
+        return [i for i in range(len(self.games)) if i not in self.retired]
+
+    def apply(self, step):
+        teams_idx = step["teams"]
+        if any(i in self.retired for t in teams_idx for i in t):
+            return
+        sides = self.side_calls(step)
+        out = []
+        for s, (model, call) in enumerate(sides):
+            objs = [[self.players[s][i] for i in t] for t in teams_idx]
+            res = guarded(model.rate, objs, what=f"rate (side {'AB'[s]})", **call_kwargs(call))
+            self.ctx.called()
+            out.append(res)
+        self.n_games += 1
+        a, b = vals(out[0]), vals(out[1])
+        if a != b:
+            bad = next(((i, j) for i in range(len(a)) for j in range(len(a[i])) if a[i][j] != b[i][j]), None) if len(a) == len(b) and all(len(x) == len(y) for x, y in zip(a, b)) else None
+            raise Violation(f"history:{self.WHAT}-differs", f"{self.cfg['kind']} game {self.n_games} teams={teams_idx}: side A {sides[0][1]} vs side B {sides[1][1]}: "
+                                                            + (f"player {bad}: {a[bad[0]][bad[1]]!r} != {b[bad[0]][bad[1]]!r}" if bad else f"shapes differ: {a!r} vs {b!r}"))
+        for s in (0, 1):
+            for x, t in enumerate(teams_idx):
+                for y, i in enumerate(t):
+                    self.players[s][i] = out[s][x][y]
+        beta = self.cfg["beta"]
+        for t in teams_idx:
+            for i in t:
+                self.games[i] += 1
+                r = self.players[0][i]
+                if not (math.isfinite(r.mu) and math.isfinite(r.sigma) and 1e-4 * beta <= r.sigma <= 10 * beta and abs(r.mu) <= 20 * beta):
+                    self.retired.add(i)
+        if sides[0][1] != sides[1][1] or sides[0][0] is not sides[1][0]:
+            self.differing_presentations += 1
+        if self.n_games >= 6 and max(self.games) >= 3:
+            self.nontrivial = True
+
+    RULES = {}
+
+
+def _twin_play(lo, hi):
+    def rule(h):
+        @st.composite
+        def s(draw):
+            act = h.active()
+            if len(act) < 2:
+                act = list(range(len(h.games)))
+                h.retired.clear()
+            order = list(draw(st.permutations(act)))
+            n = draw(st.integers(min(lo, len(order)), min(hi, len(order), h.MAX_TEAMS)))
+            teams = _partition(draw, order, n, h.MAX_SIZE)
+            classes = draw(gen.weak_orders(n))
+            step = {"op": "play", "teams": teams, "classes": classes}
+            step.update(type(h).extra_step(draw, h, n, classes))
+            return step
+
+        return s()
+
+    return rule
+
+
+def twin_class(base, name, **attrs):
+    cls = type(name, (base,), attrs)
+    cls.RULES = {"play_two": _twin_play(2, 2), "play_multi": _twin_play(2, 5)}
     return cls
